@@ -115,6 +115,7 @@ func nearBox(sh []int) [][]int {
 }
 
 func genC01(tier string, r *rng, emit func(string)) {
+	intPoolMotifs(emit)
 	maxRank, maxDim := 3, 3
 	dts := []string{"f64", "i", "u8", "str"}
 	if tier == "thorough" {
